@@ -7,7 +7,6 @@ import numpy as np
 
 from harness.common import frac, err_kind, deep_compare
 
-DISABLED = True
 
 PID = "C20"
 THEOREMS = [
@@ -15,15 +14,17 @@ THEOREMS = [
     "PorepyVerif.C20.norm2_rotate",
     "PorepyVerif.C20.cross_rotate",
     "PorepyVerif.C20.diff_translate",
-    "PorepyVerif.C20.tri_area2_invariant",
+    "PorepyVerif.C20.quat_rotation_isRot",
     "PorepyVerif.C20.tri_normal_equivariant",
-    "PorepyVerif.C20.centroid_equivariant",
+    "PorepyVerif.C20.tri_area2_invariant",
     "PorepyVerif.C20.tet_volume_invariant",
+    "PorepyVerif.C20.centroid_equivariant",
     "PorepyVerif.C20.tangent_equivariant",
     "PorepyVerif.C20.plane_normal_equivariant",
     "PorepyVerif.C20.geom1_equivariant",
-    "PorepyVerif.C20.polygon_cell_geometry_equivariant",
     "PorepyVerif.C20.geom2_equivariant",
+    "PorepyVerif.C20.geom2_branches_invariant",
+    "PorepyVerif.C20.polygon_cell_geometry_equivariant",
     "PorepyVerif.C20.face3_geometry_equivariant",
     "PorepyVerif.C20.cell3_geometry_equivariant",
     "PorepyVerif.C20.geom3_equivariant",
@@ -31,13 +32,13 @@ THEOREMS = [
 LEAN_MODULES = ["PorepyVerif.C20.Props"]
 AUDIT = "PorepyVerif/C20/Audit.lean"
 DRIVER = "PorepyVerif/C20/Driver.lean"
-N = {"quick": 60, "thorough": 1500}
+N = {"quick": 120, "thorough": 8000}
 TOL = 1e-10          # oracle tolerance (relative to the size of the coordinates)
 CTOL = 1e-9          # correspondence tolerance (class T)
 
 RULE = ("one grid + one rigid motion per case. Grids: 1-D (uniform / non-uniform tensor), 2-D (Cartesian, tensor, structured triangles, Delaunay "
         "triangles, hand-built polygon meshes with non-convex cells and random star-shaped single cells, node-perturbed versions), 3-D (Cartesian, "
-        "tensor, structured and Delaunay tetrahedra, node-perturbed hexahedra with non-planar faces); all node coordinates dyadic. 2-D variants "
+        "tensor, structured and Delaunay tetrahedra, node-perturbed hexahedra with non-planar faces, prisms over the polygon meshes with non-convex faces); all node coordinates dyadic. 2-D variants "
         "exercise every orientation branch of _compute_geometry_2d: consistently oriented, all faces reversed, some faces reversed (check 1 fails "
         "-> plane fitting with map_geometry.compute_normal + convex fallback), two disconnected patches of equal area with opposite orientation "
         "(check 2), of unequal area (check 3). Motion: proper rotation from an integer quaternion (all rational rotations; identity, half turns, "
@@ -50,15 +51,20 @@ TRUSTED = [
     "modelled, not verified: binary64 rounding, in particular the tie-breaking of np.argmax in compute_tangent / compute_normal between points that are "
     "equally far from the mean (the model breaks ties exactly, the theorems show the selected index is invariant in exact arithmetic); the compared "
     "final fields do not depend on that choice",
-    "modelled, not verified: compute_normal's collinearity test np.allclose(normal, 0, atol=tol*scale) is component-wise and therefore not rotation invariant "
-    "inside the band tol < sin(angle) < sqrt(3) tol; the model reproduces it, the theorems are about the returned normal when the test passes",
+    "modelled, not verified: compute_normal's collinearity test np.allclose(normal, 0, atol=tol*|v1|^2) is component-wise and therefore not rotation invariant "
+    "inside a band of width sqrt(3) around the tolerance (point clouds that are collinear up to ~1e-5); the model reproduces the test for the correspondence "
+    "(RuntimeError), the theorems are about the returned normal, generated grids stay far from the band",
+    "oracle only (no model): map_grid / project_plane_matrix / project_line_matrix / rotation_matrix give an isometric local copy of the moved 1-D / 2-D grid "
+    "(proper rotation, node distances, centre distances and normal lengths preserved); compute_geometry itself no longer calls them",
     "modelled, not verified: numpy / scipy.sparse glue that gathers node coordinates per face and per cell (done by the harness when it resolves the grid "
     "for the driver), np.bincount, sparse products, np.unique(return_index)",
 ]
 EXPLANATION = ("CORE: the model mirrors _compute_geometry_1d/_2d/_3d, compute_tangent and compute_normal formula by formula over Q (square roots through an "
                "abstract function); theorems: cross/dot/norm equivariance of rotations (R^T R = 1, det R = 1), and equivariance of every geometry field of "
                "the three grid-level functions (volumes/areas invariant, centres moved, normals rotated), all orientation branches included. Correspondence "
-               "compares all fields of the reference and of the moved grid with the model (1e-9); the oracle checks the equivariance statement on the real code (1e-10).")
+               "compares all fields of the reference and of the moved grid with the model (1e-9); the oracle checks the equivariance statement on the real code (1e-10). "
+               "The generated motions are tied to the hypothesis of the theorems: quat_rotation_isRot proves that every non-zero rational quaternion gives a proper rotation, "
+               "and the driver re-computes the exact motion of the reference nodes with the model's act/quatMat (compared exactly) and decides IsRot.")
 ASSUMPTIONS = ["cells have at least one face, faces at least one node, cell volumes and (3-D) face areas are non-zero (otherwise the code divides by zero)",
                "2-D cells on the convex fallback path are convex (the code's own assumption)"]
 
@@ -72,8 +78,8 @@ def quat_matrix(q):
             [2 * (x * z - w * y) / n, 2 * (y * z + w * x) / n, (w * w - x * x - y * y + z * z) / n]]
 
 
-def apply_motion(mot, nodes):
-    """nodes: 3 x n list of Fractions -> exact image, rounded once to binary64 (returned again as Fractions)."""
+def apply_motion_exact(mot, nodes):
+    """nodes: 3 x n list of Fractions -> exact image R p + t"""
     R = quat_matrix(mot["q"])
     t = [F(v) for v in mot["t"]]
     n = len(nodes[0])
@@ -81,8 +87,13 @@ def apply_motion(mot, nodes):
     for j in range(n):
         p = [nodes[0][j], nodes[1][j], nodes[2][j]]
         for i in range(3):
-            out[i][j] = F(float(R[i][0] * p[0] + R[i][1] * p[1] + R[i][2] * p[2] + t[i]))
+            out[i][j] = R[i][0] * p[0] + R[i][1] * p[1] + R[i][2] * p[2] + t[i]
     return out
+
+
+def apply_motion(mot, nodes):
+    """exact image, rounded once to binary64 (returned again as Fractions): the node coordinates the real code is given"""
+    return [[F(float(v)) for v in row] for row in apply_motion_exact(mot, nodes)]
 
 
 def gen_motion(rng):
@@ -145,8 +156,15 @@ def _polys_to_grid(pts, polys):
 
 
 def _poly_meshes(rng):
-    k = rng.randrange(5)
-    if k == 0:    # L-shaped (non-convex) cell + the square filling the notch
+    k = rng.randrange(7)
+    if k == 6:    # chevron whose vertex mean (2, 31/32) lies just below the notch, i.e. outside the polygon: as a face of a prism
+        # it has sub-triangles of negative orientation (sub_normals_sign = -1) while the prism's centre still sees all its faces
+        pts = [(0, 0), (2, 1), (4, 0), (2, 23 / 8)]
+        polys = [[0, 1, 2, 3]]
+    elif k == 5:    # L with long arms: the average of the edge midpoints lies outside the cell (negative sub-simplices)
+        pts = [(0, 0), (4, 0), (4, 1), (1, 1), (1, 4), (0, 4), (4, 4)]
+        polys = [[0, 1, 2, 3, 4, 5]] + ([[3, 2, 6, 4]] if rng.random() < 0.5 else [])
+    elif k == 0:    # L-shaped (non-convex) cell + the square filling the notch
         pts = [(0, 0), (2, 0), (2, 1), (1, 1), (1, 2), (0, 2), (2, 2)]
         polys = [[0, 1, 2, 3, 4, 5], [3, 2, 6, 4]]
     elif k == 1:  # pentagon with three triangles around it
@@ -175,6 +193,33 @@ def _poly_meshes(rng):
             else:
                 polys += [[a, b, c], [a, c, d]]
     return pts, polys
+
+
+def _extrude(pts, polys, h):
+    """prisms over a 2-D polygon mesh: nodes, fn, cf of the 3-D grid (faces with closed node loops, signs = outward)"""
+    n = len(pts)
+    nodes = np.array([[p[0] for p in pts] * 2, [p[1] for p in pts] * 2, [0.0] * n + [float(h)] * n], dtype=float)
+    faces, fkey = [], {}
+    ci, cp, cd = [], [0], []
+    for loop in polys:
+        faces.append(list(loop))                    # bottom, counter-clockwise: normal +z = inward
+        ci.append(len(faces) - 1); cd.append(-1)
+        faces.append([v + n for v in loop])         # top: normal +z = outward
+        ci.append(len(faces) - 1); cd.append(1)
+        for k in range(len(loop)):
+            a, b = loop[k], loop[(k + 1) % len(loop)]
+            key = (min(a, b), max(a, b))
+            if key not in fkey:
+                fkey[key] = (len(faces), (a, b))
+                faces.append([a, b, b + n, a + n])  # outward for the cell that runs a -> b
+            f, ab = fkey[key]
+            ci.append(f); cd.append(1 if ab == (a, b) else -1)
+        cp.append(len(ci))
+    fi, fp = [], [0]
+    for f in faces:
+        fi += f
+        fp.append(len(fi))
+    return nodes, {"indices": fi, "indptr": fp}, {"indices": ci, "indptr": cp, "data": cd}
 
 
 def gen_grid(rng, tier):
@@ -224,6 +269,11 @@ def gen_grid(rng, tier):
             convex = False
         return {"dim": 2, "kind": kind, "nodes": nodes, "fn": fn, "cf": cf, "convex": convex}
     else:
+        r = rng.random()
+        if r < 0.15:     # prisms over a polygon mesh: non-convex faces, sub-triangles of either sign
+            pts, polys = _poly_meshes(rng)
+            nodes, fn, cf = _extrude(pts, polys, rng.choice([1, 0.5, 2]))
+            return {"dim": 3, "kind": "prism3", "nodes": nodes, "fn": fn, "cf": cf, "convex": False}
         r = rng.random()
         if r < 0.25:
             dims = rng.choice([[1, 1, 1], [2, 1, 1], [1, 2, 1], [2, 2, 1], [1, 1, 3], [2, 2, 2] if big else [1, 2, 2]])
@@ -394,6 +444,35 @@ def oracle(case):
         i = int(np.argmax(np.max(np.abs(want - np.array(g1["fn"]).reshape(-1, 3)), axis=1)))
         return {"what": f"face_normals[{i}] = {g1['fn'][i]} after the motion, expected the rotated reference normal {want[i].tolist()} ({case['kind']}, {case.get('variant')})",
                 "key": f"{tag}:face_normals-not-equivariant"}
+    if case["dim"] < 3:
+        return _mapgrid_check(case, m, tag)
+    return None
+
+
+def _mapgrid_check(case, nodes, tag):
+    """oracle only: map_grid / project_plane_matrix / project_line_matrix on the embedded grid give an isometric local copy"""
+    import porepy as pp
+    g = build_grid(case, nodes)
+    try:
+        with warnings.catch_warnings():
+            warnings.simplefilter("ignore")
+            g.compute_geometry()
+    except Exception:
+        return None
+    try:
+        cc, fn, fc, R, dim, nd = pp.map_geometry.map_grid(g)
+    except Exception as e:
+        return {"what": f"map_grid raised {type(e).__name__} on the embedded grid ({case['kind']}, {case.get('variant')})", "key": f"{tag}:map_grid-raises"}
+    s = max(1.0, float(np.max(np.abs(g.nodes))))
+    if not (np.allclose(R.T @ R, np.eye(3), atol=1e-10) and abs(np.linalg.det(R) - 1) < 1e-10):
+        return {"what": "map_grid: the projection matrix is not a proper rotation", "key": f"{tag}:map_grid-not-rotation"}
+    d3 = np.linalg.norm(g.nodes[:, :, None] - g.nodes[:, None, :], axis=0)
+    d2 = np.linalg.norm(nd[:, :, None] - nd[:, None, :], axis=0)
+    c3 = np.linalg.norm(g.cell_centers[:, :, None] - g.face_centers[:, None, :], axis=0)
+    c2 = np.linalg.norm(cc[:, :, None] - fc[:, None, :], axis=0)
+    if int(np.sum(dim)) != g.dim or not np.allclose(d3, d2, atol=1e-9 * s) or not np.allclose(c3, c2, atol=1e-9 * s) \
+            or not np.allclose(np.linalg.norm(fn, axis=0), np.linalg.norm(g.face_normals, axis=0), atol=1e-9 * s):
+        return {"what": f"map_grid: local coordinates of the embedded grid are not an isometric copy ({case['kind']}, {case.get('variant')})", "key": f"{tag}:map_grid-not-isometric"}
     return None
 
 
@@ -430,15 +509,54 @@ def resolve(case, nodes):
 
 def model_ops(case):
     b, m = both_nodes(case)
-    return [{"op": "geom", "dim": case["dim"], "grid": resolve(case, b)}, {"op": "geom", "dim": case["dim"], "grid": resolve(case, m)}]
+    return [{"op": "geom", "dim": case["dim"], "grid": resolve(case, b)}, {"op": "geom", "dim": case["dim"], "grid": resolve(case, m)},
+            {"op": "motion", "q": [str(v) for v in case["motion"]["q"]], "t": case["motion"]["t"], "pts": [_v(b, j) for j in range(len(b[0]))]}]
 
 
 def model_decode(outs, case):
-    return {"base": outs[0], "moved": outs[1]}
+    return {"base": outs[0], "moved": outs[1], "motion": outs[2]}
 
 
 def compare(impl, model, case):
     if "harness_exc" in impl:
         return "harness exception in impl_run: " + impl["harness_exc"]
-    s = max(_scale(case, n) for n in both_nodes(case))
-    return deep_compare(impl, model, tol=CTOL * s)
+    b, m = both_nodes(case)
+    # the harness' motion is the model's `act (quatMat q, t)`, exactly, and the model decides it is a proper rotation
+    ex = apply_motion_exact(case["motion"], b)
+    want = {"isrot": True, "pts": [[frac(ex[0][j]), frac(ex[1][j]), frac(ex[2][j])] for j in range(len(b[0]))]}
+    d = deep_compare(want, model.get("motion") if isinstance(model, dict) else None, path="motion")
+    if d:
+        return d
+    s = max(_scale(case, b), _scale(case, m))
+    return deep_compare(impl, {k: model[k] for k in ("base", "moved")}, tol=CTOL * s)
+
+
+def signature(case):
+    import json
+    return json.dumps({k: case[k] for k in ("dim", "nodes", "fn", "cf", "motion") if k in case} | {"pre": case.get("pre")}, sort_keys=True)
+
+
+def shrink_candidates(case):
+    if case.get("pre"):
+        c = dict(case)
+        c.pop("pre")
+        yield c
+    m = case["motion"]
+    if any(F(v) != 0 for v in m["t"]):
+        yield dict(case, motion={"q": m["q"], "t": ["0", "0", "0"]})
+    for q in ([1, 1, 0, 0], [1, 0, 1, 0], [1, 0, 0, 1], [0, 1, 0, 0], [0, 0, 1, 0], [1, 1, 1, 0], [1, 2, 0, 0]):
+        if q != m["q"]:
+            yield dict(case, motion={"q": q, "t": m["t"]})
+
+
+def stats(cases, impl_outs):
+    from collections import Counter
+    kinds = Counter(f"{c['dim']}d:{c['kind']}" for c in cases)
+    variants = Counter(c.get("variant", "plain") for c in cases if c["dim"] == 2)
+    rots = Counter("identity" if not any(c["motion"]["q"][1:]) else "half-turn" if c["motion"]["q"][0] == 0 and sum(1 for v in c["motion"]["q"] if v) == 1
+                   else "quarter-turn" if sorted(map(abs, c["motion"]["q"])) == [0, 0, 1, 1] and c["motion"]["q"][0] else "generic" for c in cases)
+    errs = Counter(o["base"].get("err") for o in impl_outs if isinstance(o, dict) and "base" in o and "err" in o["base"])
+    cells = [len(c["cf"]["indptr"]) - 1 for c in cases]
+    return {"grid_kinds": dict(kinds), "variants_2d": dict(variants), "rotations": dict(rots), "pre_embedded": sum(1 for c in cases if c.get("pre")),
+            "errors_raised_by_reference": {str(k): v for k, v in errs.items()}, "cells_min_max": [min(cells, default=0), max(cells, default=0)],
+            "max_translation": max((abs(float(F(v))) for c in cases for v in c["motion"]["t"]), default=0)}
